@@ -81,6 +81,17 @@ def gen_prm(ctx):
             for ro in reqops:
                 for req in (False, True):
                     ops.append(("jwk.prm", {"jwk": jwk, "req": req, "op": ro}))
+    # near-miss spellings: names are compared exactly (letter case, surrounding blanks, prefixes and longer words are other names)
+    for use in ("SIG", "Sig", "ENC", "Enc", "sig ", " enc", "si", "signature", ""):
+        for ro in reqops:
+            for req in (False, True):
+                ops.append(("jwk.prm", {"jwk": {"kty": "oct", "use": use}, "req": req, "op": ro}))
+    for ko in (["Sign"], ["SIGN"], ["sign "], [" sign"], ["sig"], ["signing"], ["Verify", "ENCRYPT"], ["wrapkey"], ["WrapKey"], ["derivekey"], [""]):
+        for use in ("ABSENT", "sig", "enc"):
+            jwk = dict({"kty": "oct", "key_ops": ko}, **({} if use == "ABSENT" else {"use": use}))
+            for ro in reqops:
+                for req in (False, True):
+                    ops.append(("jwk.prm", {"jwk": jwk, "req": req, "op": ro}))
     for j in (None, 5, "str", [], [{"use": "sig"}], True):
         for req in (False, True):
             ops.append(("jwk.prm", {"jwk": j, "req": req, "op": "sign"}))
